@@ -64,9 +64,54 @@ def resolve_cas(t, succeeded):
 FPNOTE = ' (a float/double operand is produced in %xmm0 and a float/double load goes to %xmm0: the bits must be moved to the general register the instruction uses)'
 
 
+def operands_once(rep, rule, key, pack, children, what, where):
+    """every operand of the indivisible primitive is evaluated exactly once by the code gen_expr emits for it: the emitted sequence of
+    every returning path contains exactly one recursive gen_expr / gen_addr / gen_stmt of each operand node. A second evaluation repeats
+    the operand's side effects and - for the object operand - lets the instruction work on another object than the one the first
+    evaluation designated (the term machine cannot see it: both evaluations leave `the value of the operand`)."""
+    from ..chibi import linearise
+    from ..lib_sem import label_of
+    seen_path = False
+    verdict = {c: None for c in children}
+    for ctx, tr, finals, cats, it in pack:
+        nodes = linearise(tr)
+        seen_path = True
+        pos = {c: [] for c in children}
+        for i, n in enumerate(nodes):
+            if n[0] == 'pseudo':
+                ch = it.settle(n[2]) if isinstance(n[2], View) else n[2]
+                nm = label_of(ch)
+                if nm in pos:
+                    pos[nm].append(i)
+        for c in children:
+            k = len(pos[c])
+            if k == 1:
+                continue
+            if k == 0:
+                verdict[c] = verdict[c] or ('not-evaluated', 'the emitted code does not evaluate the operand %s at all: its side effects are lost' % c, tr.text())
+                continue
+            between = nodes[pos[c][0]:pos[c][-1]]
+            if any(n[0] == 'label' or (n[0] == 'ins' and n[1].split()[0].startswith('j')) for n in between):
+                verdict[c] = verdict[c] or ('?', 'the operand %s is evaluated at %d places of the emitted code with control flow in between' % (c, k), tr.text())
+            else:
+                verdict[c] = verdict[c] or ('evaluated-more-than-once', 'the emitted code evaluates the operand %s %d times in one straight-line sequence: its side effects are repeated and the instruction works on the value of the LAST evaluation, while the other uses belong to an earlier one (`atomic_exchange(&a[i++], v)`, `next_counter()`)' % (c, k), tr.text())
+    for c in children:
+        k2 = '%s:operand-%s-evaluated-once' % (key, c)
+        v = verdict[c]
+        if not seen_path:
+            rep.undecided(rule, k2, 'no returning path of gen_expr', where=where)
+        elif v is None:
+            rep.ob(rule, k2, True, '', where=where)
+        elif v[0] == '?':
+            rep.undecided(rule, k2, '%s: %s' % (what, v[1]), where=where)
+        else:
+            rep.ob(rule, k2 + ':' + v[0], False, '%s: %s' % (what, v[1]), where=where, facts={'trace': v[2]})
+
+
 def r163(cg, rep):
     rep.rule('R16.3', 'compare-and-swap: expected value loaded from *old with the object width, `lock cmpxchg` with the new value in a register of the object width on the object itself, result from ZF, and on failure (only) the observed value written back through the saved `old` pointer with the object width; for float/double objects the bit patterns of the operands are what is compared and stored', floor=10)
     rep.rule('R16.4', 'exchange: `xchg` with the object as memory operand and a register of the object width; the old value is left in the register convention of the object type (%xmm0 for float/double)', floor=10)
+    rep.rule('R16.17', 'the code gen_expr emits for the compare-and-swap / exchange primitives evaluates each operand node (object address, expected-value address, new value) exactly once on every path, for every object type incl. struct/union objects: an operand evaluated again repeats its side effects and lets the instruction work on another object than the one sampled', floor=40)
     where = '%s:%d' % (U, cg.cu.fn('gen_expr').line)
     for cat, size in SIZES:
         w = size * 8
@@ -81,6 +126,7 @@ def r163(cg, rep):
             return n
         pack = run_paths(cg, 'gen_expr', mk)
         key = '%s:gen_expr:ND_CAS/%s' % (U, cat)
+        operands_once(rep, 'R16.17', key, pack, ('cas_addr', 'cas_old', 'cas_new'), 'compare-and-swap on %s' % cat, where)
         nstates = 0
         nshape = 0
         outcomes = set()
@@ -145,6 +191,7 @@ def r163(cg, rep):
             return n
         pack = run_paths(cg, 'gen_expr', mkx)
         keyx = '%s:gen_expr:ND_EXCH/%s' % (U, cat)
+        operands_once(rep, 'R16.17', keyx, pack, ('lhs', 'rhs'), 'exchange on %s' % cat, where)
 
         def chk(s, cat=cat, w=w):
             xs = [e for e in s.events if e[0] == 'xchg']
@@ -798,6 +845,7 @@ def r1610(P, cg, rep):
                         n.fields['rhs'] = cg.node('rhs', ty=b)
                     return n
                 pack = run_paths(cg, 'gen_expr', mk)
+                operands_once(rep, 'R16.17', '%s:gen_expr:%s/%s-of-%d-bytes' % (U, kind, aname, size), pack, ('cas_addr', 'cas_old', 'cas_new') if kind == 'ND_CAS' else ('lhs', 'rhs'), '%s on %s' % (kind, what), where)
                 nstates = 0
                 for ctx, tr, finals, cats, it in pack:
                     if isinstance(finals, Exception):
@@ -1024,7 +1072,7 @@ def run(P, rep, tier):
                        'plus the header mapping: the macros of include/stdatomic.h are evaluated under interference schedules, untyped on a 64-bit object (R16.5) and with C types on objects of every integer width and signedness, where the compare-exchange builtin refreshes exactly sizeof(object) bytes of the expected-value object (R16.8). '
                        'float/double atomic objects are covered by R16.1 (rewrite) and R16.3/R16.4 (bit patterns moved between %xmm0 and the general register the instruction uses). '
                        'R16.8 evaluates every macro twice: with the object designated through a pointer to the _Atomic-qualified type (op= on *(obj) is then the indivisible rewrite of R16.1) and through a pointer to the unqualified type (op= is a plain load/modify/store there; only the builtins are indivisible). '
-                       'R16.9: every atomic_* typedef of C11 7.17.6 carries _Atomic on the paired direct type. R16.10: struct/union objects are either rejected by add_type or the instruction works on the bytes of the operands, not on the addresses aggregates are evaluated to. R16.12: a store to an atomic object of 1/2/4/8 bytes (scalar, struct, union) is one store instruction of the object width. R16.11: the qualifier survives type derivation - the type constructors, add_type on every lvalue shape, typeof / typedef names / pointer declarators (declspec and declarator interpreted on token sequences with an atomic type in scope), and no assignment clears is_atomic. R16.13/R16.15: the trees unary()/postfix()/to_assign() build for ++, -- and op= on an atomic object of every scalar type are run by a reference evaluator of the node language in which another thread overwrites the object before any access of this thread (finite set of schedules x boundary values): exactly one successful compare-exchange writes the object, it installs conv_T(h op k) for the value h it replaced, postfix forms yield h itself, the others the installed value, and the loop ends with the interference. R16.14: the bytes a bit-field store rewrites (layout of struct_decl on a catalogue of member sequences x store width of gen_expr) contain no byte of another memory location (C11 3.14) - a plain read-modify-write of a unit that also holds an _Atomic member undoes the indivisible updates of that member. R16.16: the macros of include/stdatomic.h evaluate every operand exactly once per invocation (calls as arguments, counted by the mini evaluator over the interference schedules, so that retry loops run 0..4 times). Linearizability under arbitrary interleavings is a property of schedules and is decided only for the finite schedule set of R16.13/R16.15.')
+                       'R16.9: every atomic_* typedef of C11 7.17.6 carries _Atomic on the paired direct type. R16.10: struct/union objects are either rejected by add_type or the instruction works on the bytes of the operands, not on the addresses aggregates are evaluated to. R16.12: a store to an atomic object of 1/2/4/8 bytes (scalar, struct, union) is one store instruction of the object width. R16.11: the qualifier survives type derivation - the type constructors, add_type on every lvalue shape, typeof / typedef names / pointer declarators (declspec and declarator interpreted on token sequences with an atomic type in scope), and no assignment clears is_atomic. R16.13/R16.15: the trees unary()/postfix()/to_assign() build for ++, -- and op= on an atomic object of every scalar type are run by a reference evaluator of the node language in which another thread overwrites the object before any access of this thread (finite set of schedules x boundary values): exactly one successful compare-exchange writes the object, it installs conv_T(h op k) for the value h it replaced, postfix forms yield h itself, the others the installed value, and the loop ends with the interference. R16.14: the bytes a bit-field store rewrites (layout of struct_decl on a catalogue of member sequences x store width of gen_expr) contain no byte of another memory location (C11 3.14) - a plain read-modify-write of a unit that also holds an _Atomic member undoes the indivisible updates of that member. R16.17: each operand node of ND_CAS / ND_EXCH is evaluated exactly once in the emitted code of every path. R16.16: the macros of include/stdatomic.h evaluate every operand exactly once per invocation (calls as arguments, counted by the mini evaluator over the interference schedules, so that retry loops run 0..4 times). Linearizability under arbitrary interleavings is a property of schedules and is decided only for the finite schedule set of R16.13/R16.15.')
     rep.assumptions += ['x86-64: `lock cmpxchg` and `xchg` with a memory operand are indivisible (Intel SDM vol. 3 ch. 8)', 'children satisfy the register convention (induction)']
     r163(cg, rep)
     r1610(P, cg, rep)
